@@ -62,7 +62,7 @@ FO_RULE = ("Scenarios are drawn from the seeded PRNG (clients, keys, Gets with b
 prop("C02", quick={"runs": 8000}, thorough={"runs": 100000000, "budget_s": 600}, level="fault_enumeration",
      rule=FO_RULE + "Half of the runs come in families of 16 that share one small scenario while the failing backend call sweeps over "
      "every ordinal (Read ordinals 0-7, then Write ordinals 0-7) under varying schedules; the other half inject failures at random "
-     "ordinals of larger scenarios (incl. the UpdateTTL re-store). Non-trivial: two Gets of different clients on one key overlapped; "
+     "ordinals of larger scenarios (incl. the UpdateTTL re-store); in 10 % the backend reports expired entries with the bare ErrExpired sentinel, without the item. Non-trivial: two Gets of different clients on one key overlapped; "
      "distinct = distinct (scenario, schedule signature).",
      rules=["C02.R1 wrong-key", "C02.R2 unfinished-or-failed-build", "C02.R3 fabricated (nil / zero value with nil error)",
             "C02.R4 foreign or unknown error"],
@@ -126,7 +126,7 @@ prop("C10", quick={"runs": 16000}, thorough={"runs": 100000000, "budget_s": 600}
             "C10.R3 fresh 1ns before, ErrExpired 1ns after the reported instant (window not representable: reported expiry not before the window, entry served now and 20 years on)", "C10.R4 ErrExpired.ExpiredAt == Walk's ExpireAt"],
      probes=["never_expiring_write", "jitter_disabled_write", "jittered_write", "flip_probed", "born_expired", "expiry_beyond_representable_time"])
 prop("C11", quick={"runs": 30000}, thorough={"runs": 100000000, "budget_s": 600},
-     rule=BE_RULE + "Root-driven writes (never-expiring, fresh, recently expired, long expired) and clock jumps; the real janitor goroutine runs as a "
+     rule=BE_RULE + "Root-driven writes (never-expiring, fresh, recently expired, long expired), entries arriving through Restore (without expiry, with expiry; a third of the latter over a stream that breaks after the record) and clock jumps; the real janitor goroutine runs as a "
      "scheduled task whenever the simulated clock crosses DeleteExpiredJobInterval; after every jump that contained a cycle the surviving key set is "
      "compared with the reference map. A fifth of the runs rewrite long-expired keys while a cycle is walking the shards; another fifth are a concurrent phase "
      "(writes with/without per-call TTL, deletes, DeleteAll, ExpireAll, janitor cycles in between) followed by quiet cleanup cycles in which nothing touches the cache "
